@@ -8,7 +8,7 @@
 (* LinAlgebraValidate decides.                                                 *)
 (* Matrices are lists of rows.  Angles are given as num * pi / den.            *)
 (* Environment: OUT (file prefix), C06_GROUP (lin2 | lin3 | pair3 | aff3 |     *)
-(* rot | quat | slerp), C06_LEVEL (0 quick, 1 thorough: size of the families). *)
+(* rot | quat | slerp | ops), C06_LEVEL (0 quick, 1 thorough: size of the families). *)
 EXTENDS LinAlgebra, IOUtils, Json, SequencesExt
 
 Group == IOEnv.C06_GROUP
@@ -197,9 +197,19 @@ QuatPairCase(A, B)   == [a |-> "QuatPair", cls |-> QuatBranch(A) \o "*" \o QuatB
 QuatVecCase(A)       == [a |-> "QuatVec", cls |-> QuatBranch(A), arg |-> [a |-> A, vs |-> XfmVs3],
                          exp |-> [app |-> Images(A, XfmVs3), point |-> Images(A, XfmVs3), normal |-> Images(A, XfmVs3)]]
 \* Hurwitz units: quaternion values themselves (components doubled), exact in binary floating point
+\* ... including every scalar / compound-assignment / mixed-type overload of the quaternion operators (s = 2, 1/2, 1: exact):
+\* all are componentwise by definition, the product is the Hamilton product
+Two == <<2, 0, 0, 0>>                               \* the real number 1, doubled
 HQuatCase(x, y)      == [a |-> "HQuat", cls |-> IF x[1] % 2 = 0 THEN "lipschitz" ELSE "half-integer", arg |-> [a |-> x, b |-> y],
                          exp |-> [mul2 |-> HMul(x, y), conj2 |-> HConj(x), rcp2 |-> HConj(x), neg2 |-> VNeg(x), m |-> QMat(x),
-                                  sum2 |-> VAdd(x, y), diff2 |-> VSub(x, y), dot4 |-> Dot(x, y)]]
+                                  sum2 |-> VAdd(x, y), diff2 |-> VSub(x, y), dot4 |-> Dot(x, y),
+                                  smul_l |-> VScale(2, x), smul_r |-> VScale(2, x), smul_int |-> VScale(2, x), smul_dbl |-> VScale(2, x),
+                                  sdiv |-> VScale(2, x), rdiv |-> VScale(2, HConj(x)), qdiv |-> HMul(x, HConj(y)),
+                                  addr |-> VAdd(x, Two), addl |-> VAdd(x, Two), subr |-> VSub(x, Two), subl |-> VSub(Two, x), pos |-> x,
+                                  pluseq_s |-> VAdd(x, Two), minuseq_s |-> VSub(x, Two), muleq_s |-> VScale(2, x), diveq_s |-> VScale(2, x),
+                                  pluseq_q |-> VAdd(x, y), minuseq_q |-> VSub(x, y), muleq_q |-> HMul(x, y), diveq_q |-> HMul(x, HConj(y)),
+                                  eq |-> (x = y), ne |-> (x # y), ctor_r |-> <<2, 0, 0, 0>>, ctor_v |-> <<0, x[2], x[3], x[4]>>,
+                                  ctor_rv |-> x, vpart2 |-> <<x[2], x[3], x[4]>>, abs1 |-> 1, normalized2 |-> x]]
 \* rotations with rational matrices num / den: matrix -> quaternion -> matrix, unit quaternion -> matrix, normalize
 \* (class = branch / whether every component of the quaternion is non-zero, i.e. every term of the branch is exercised)
 QuatRatCase(h) == [a |-> "QuatRat", cls |-> QuatBranch(QMat4(h)) \o (IF \A i \in 1..4 : h[i] # 0 THEN "/all-terms" ELSE ""),
@@ -237,6 +247,45 @@ SlerpCases ==
   LET sp == SetToSeq({<<A, B, neg, t2>> \in Rot \X Rot \X BOOLEAN \X {0, 1, 2} : Level = 1 \/ ~neg \/ A = B \/ Weight(A) % 3 = 0})
   IN [k \in DOMAIN sp |-> SlerpCase(sp[k][1], sp[k][2], sp[k][3], sp[k][4])]
 
+
+\* --------------------------------------------------------------------------
+\* group "ops": every remaining operator overload of LinearSpace2 / LinearSpace3 / AffineSpaceT (scalar *, / scalar, / matrix,
+\* compound assignments, unary +, aliasing operands x *= x and x /= x, ==, !=) and the converting constructors between
+\* element types and paddings; two overloads that must agree are both compared with the same expected value
+\* --------------------------------------------------------------------------
+OpsCase(A, B) ==
+  LET I == Ident(Len(A))
+      base == [smul2 |-> SMul(2, A), smulneg |-> SMul(-3, A), divs |-> A, plus |-> A, selfmul |-> Mul(A, A),
+               eq |-> (A = B), ne |-> (A # B), eqself |-> TRUE, neself |-> FALSE, copy |-> A, assign |-> A]
+      e1 == IF Unimodular(B) THEN base @@ [div |-> Mul(A, InvU(B)), diveq |-> Mul(A, InvU(B))] ELSE base
+      e2 == IF Unimodular(A) THEN e1 @@ [selfdiv |-> I] ELSE e1
+  IN [a |-> IF Len(A) = 2 THEN "Ops2" ELSE "Ops3", cls |-> IF A = B THEN "same-operands" ELSE "distinct-operands",
+      arg |-> [a |-> A, b |-> B, a2 |-> SMul(2, A), invb |-> Unimodular(B), inva |-> Unimodular(A)], exp |-> e2]
+AffOpsCase(x, y) ==
+  LET I == AffRec(AffId(3))
+      base == [smul2 |-> AffRec(Aff(SMul(2, x.l), VScale(2, x.p))), plus |-> AffRec(x), neg |-> AffRec(Aff(MNeg(x.l), VNeg(x.p))),
+               add |-> AffRec(Aff(MAdd(x.l, y.l), VAdd(x.p, y.p))), sub |-> AffRec(Aff(MSub(x.l, y.l), VSub(x.p, y.p))),
+               muleq |-> AffRec(AffMul(x, y)), selfmul |-> AffRec(AffMul(x, x)), eq |-> (x = y), ne |-> (x # y), eqself |-> TRUE, neself |-> FALSE,
+               copy |-> AffRec(x), assign |-> AffRec(x)]
+      e1 == IF Unimodular(y.l) THEN base @@ [div |-> AffRec(AffMul(x, AffInvU(y))), diveq |-> AffRec(AffMul(x, AffInvU(y)))] ELSE base
+      e2 == IF Unimodular(x.l) THEN e1 @@ [selfdiv |-> I] ELSE e1
+  IN [a |-> "AffOps", cls |-> IF x = y THEN "same-operands" ELSE "distinct-operands",
+      arg |-> [a |-> AffRec(x), b |-> AffRec(y), invb |-> Unimodular(y.l), inva |-> Unimodular(x.l)], exp |-> e2]
+\* converting constructors: float <-> double, plain <-> padded: the same matrix / map in every element type
+ConvertCase(x) == [a |-> IF Len(x.p) = 2 THEN "Convert2" ELSE "Convert3", cls |-> "any", arg |-> AffRec(x),
+                   exp |-> IF Len(x.p) = 2 THEN [lin_f |-> x.l, lin_d |-> x.l]
+                           ELSE [lin_f |-> x.l, lin_d |-> x.l, lin_fa |-> x.l, aff_f |-> AffRec(x), aff_d |-> AffRec(x), aff_fa |-> AffRec(x)]]
+OpsMaps3 == {Aff(M, t) : M \in Partner3, t \in {<<0, 0, 0>>, <<1, -2, 3>>}}
+OpsCases ==
+  IF Group # "ops" THEN <<>> ELSE
+  LET p3 == SetToSeq({pr \in Partner3 \X Partner3 : Level = 1 \/ pr[1] = pr[2] \/ (Weight(pr[1]) + 2 * Weight(pr[2])) % 3 = 0})
+      p2 == SetToSeq({pr \in Mats(2, -1..1) \X Mats(2, -1..1) : Level = 1 \/ pr[1] = pr[2] \/ (Weight(pr[1]) + 2 * Weight(pr[2])) % 5 = 0})
+      pa == SetToSeq({pr \in OpsMaps3 \X OpsMaps3 : pr[1] = pr[2] \/ (Weight(pr[1].l) + 2 * Weight(pr[2].l)) % (IF Level = 1 THEN 2 ELSE 5) = 0})
+      c3 == SetToSeq(OpsMaps3)
+      c2 == SetToSeq({Aff(M, <<1, -2>>) : M \in Mats(2, -1..1)})
+  IN [k \in DOMAIN p3 |-> OpsCase(p3[k][1], p3[k][2])] \o [k \in DOMAIN p2 |-> OpsCase(p2[k][1], p2[k][2])]
+     \o [k \in DOMAIN pa |-> AffOpsCase(pa[k][1], pa[k][2])] \o [k \in DOMAIN c3 |-> ConvertCase(c3[k])] \o [k \in DOMAIN c2 |-> ConvertCase(c2[k])]
+
 \* "val": the case has results that LinAlgebraValidate decides (rational or law-defined)
 NeedsValidation(c) == CASE c.a \in {"Inverse2", "Inverse3", "AffInv", "Orthogonal2", "Frame", "FrameUp", "Lookat", "QuatRat"} -> TRUE
                         [] c.a \in {"Xfm3", "AffXfm"} -> c.arg.inv
@@ -246,7 +295,7 @@ NeedsValidation(c) == CASE c.a \in {"Inverse2", "Inverse3", "AffInv", "Orthogona
 Marked(cs) == [k \in DOMAIN cs |-> cs[k] @@ [val |-> NeedsValidation(cs[k])]]
 
 RawCases == CASE Group = "lin2" -> Lin2Cases [] Group = "lin3" -> Lin3Cases [] Group = "pair3" -> Pair3Cases [] Group = "aff3" -> Aff3Cases
-           [] Group = "rot" -> RotCases [] Group = "quat" -> QuatCases [] Group = "slerp" -> SlerpCases
+           [] Group = "rot" -> RotCases [] Group = "quat" -> QuatCases [] Group = "slerp" -> SlerpCases [] Group = "ops" -> OpsCases
 Cases == Marked(RawCases)
 
 \* laws on exactly the emitted families (the general laws are LinAlgebraMC's)
